@@ -33,6 +33,7 @@ func init() {
 			c08TokenGuards(r)
 			c08Deadline(r)
 			customConfigOverrides(r)
+			c09SubMillisecondKept(r)
 			singleLockRegion(r)
 			lockPairing(r)
 			c07LockSections(r)
@@ -78,7 +79,23 @@ func c08AcquireIsNX(r *core.Run) {
 				haspx = true
 			}
 		case "PX":
-			if st.Val == timeout {
+			// the timeout itself, or the timeout clamped from below by a positive constant
+			v := st.Val
+			if phi, isPhi := v.(*ssa.Phi); isPhi {
+				fromParam := false
+				for _, e := range phi.Edges {
+					if e == timeout {
+						fromParam = true
+					} else if k, isK := e.(*ssa.Const); !isK || k.Value == nil || k.Int64() <= 0 {
+						fromParam = false
+						break
+					}
+				}
+				if fromParam {
+					v = timeout
+				}
+			}
+			if v == timeout {
 				px = true
 				pxStore = in
 			}
@@ -89,15 +106,21 @@ func c08AcquireIsNX(r *core.Run) {
 		"the timeout travels as the PX option (HasPX, PX = timeout)", "the lock's timeout is not carried as an expiry option of the put (options are what forwarding transmits): a lock taken through a non-owner member never expires")
 	if pxStore != nil {
 		// set exactly when timeout != 0
-		cond := false
+		cond, truncated := false, false
 		for _, cd := range core.Conditions(pxStore.Block()) {
-			if bin, ok := cd.Val.(*ssa.BinOp); ok && bin.Op == token.NEQ && cd.Truth {
+			if bin, ok := cd.Val.(*ssa.BinOp); ok && cd.Truth && (bin.Op == token.NEQ || bin.Op == token.GTR) {
 				if k, isK := bin.Y.(*ssa.Const); isK && k.Value != nil && k.Int64() == 0 {
-					cond = true
+					if core.StripConv(bin.X) == timeout {
+						cond = true
+					} else if c, isCall := bin.X.(*ssa.Call); isCall && len(c.Call.Args) > 0 && c.Call.Args[0] == timeout {
+						truncated = true
+					}
 				}
 			}
 		}
-		r.Check(cond, "acquire-is-nx", fnDMapLock+" expiry iff timeout", site(r, instrPos(pxStore)), "the expiry is set exactly when timeout != 0", "the expiry option is not conditional on timeout != 0 (a lock without timeout must be held until unlocked)")
+		r.Check(cond || truncated, "acquire-is-nx", fnDMapLock+" expiry iff timeout", site(r, instrPos(pxStore)), "the expiry is set exactly when timeout != 0", "the expiry option is not conditional on timeout != 0 (a lock without timeout must be held until unlocked)")
+		r.Check(!truncated, "acquire-is-nx", fnDMapLock+" positive timeout keeps its expiry", site(r, instrPos(pxStore)),
+			"the decision is taken on the duration itself", "whether the lock gets an expiry is decided on a truncated reading of the timeout (whole milliseconds or seconds): a positive timeout below one unit counts as 'no timeout' and the lock never expires")
 	}
 	// the request's value is the token that is returned
 	tokOK := false
